@@ -98,6 +98,7 @@ type iJob[T any] interface {
 	Job[T]
 	StatusProvider
 	changeStatus(s status)
+	markProcessing() bool
 	setAckId(id string)
 	setInternalQueue(q IBaseQueue)
 	ack() error
@@ -241,10 +242,49 @@ func (j *job[T]) Close() error {
 		return err
 	}
 
-	j.status.Store(closed)
+	if err := j.markClosed(); err != nil {
+		return err
+	}
+
 	j.wg.Done()
 
 	return nil
+}
+
+// markClosed moves the job to closed with a compare-and-swap, so that of all
+// concurrent callers (a cancelling client, Purge, the worker that finished the
+// job) exactly one wins, and a job the dispatcher has taken meanwhile is left alone.
+func (j *job[T]) markClosed() error {
+	for {
+		s := j.status.Load()
+
+		switch s {
+		case processing:
+			return ErrJobProcessing
+		case closed:
+			return ErrJobAlreadyClosed
+		}
+
+		if j.status.CompareAndSwap(s, closed) {
+			return nil
+		}
+	}
+}
+
+// markProcessing is the dispatcher's side of the same hand-shake:
+// it reports false when the job has been closed (cancelled) in the meantime.
+func (j *job[T]) markProcessing() bool {
+	for {
+		s := j.status.Load()
+
+		if s == closed {
+			return false
+		}
+
+		if j.status.CompareAndSwap(s, processing) {
+			return true
+		}
+	}
 }
 
 func (j *job[T]) ack() error {
